@@ -1209,6 +1209,9 @@ def gen_c17(ctx):
         prec = rng.choice(PRECS)
         c = hist_base(rng, ctx.quick, nmax=30)
         c['ops'] = rng.choice(seqs)
+        if 'E5' in c['ops']:
+            c['dom'] = 'row'        # symmetric mode with threshold 0 is only meaningful when diagonal pivots stay nonzero
+            if c['fam'] in ('rand',): c['fam'] = 'grid'; c.pop('dens', None)
         if rng.random() < 0.12: c['fam'] = 'diag'; c['dom'] = ''        # no off-diagonal entry at all: empty adjacency structures in the orderings
         elif rng.random() < 0.1: c['fam'] = 'blockdiag'; c['bs'] = 1; c['dom'] = 'row'
         # one thread count per case: the C runtime keeps per-thread structures of finished threads for reuse, so a
@@ -1290,7 +1293,8 @@ def gen_c18(ctx):
         c = hist_base(rng, ctx.quick, nmax=44)
         c['n'] = max(c['n'], 12)
         c['mem'] = 1; c['lwfrac'] = 1.0; c['fill7frac'] = rng.choice([2.0, 3.0, 6.0]); c['fill8frac'] = rng.choice([2.0, 3.0, 6.0])
-        c['ops'] = rng.choice(['F,R0,S0', 'F,R1,S1', 'F,S0,R0,R1']); c['nps'] = rng.choice(['1', '2', '2', '4']); c['oomok'] = 1
+        # one thread: whether a multithreaded run fits into a tight buffer depends on the schedule (late starters reuse the tail)
+        c['ops'] = rng.choice(['F,R0,S0', 'F,R1,S1', 'F,S0,R0,R1']); c['nps'] = '1'; c['oomok'] = 1
         prec = rng.choice(PRECS)
         fr = [0.55 + 0.03 * k for k in range(16)]; rng.shuffle(fr)
         pre = '|'.join('fam:%s;n:%d;ops:F;mem:1;lwfrac:%.2f;nps:%s;oomok:1;fill7frac:3.0;fill8frac:3.0' % (rng.choice(['grid', 'band']), rng.choice([16, 24, 36]), f, rng.choice(['1', '2', '4'])) for f in fr[:rng.choice([3, 6, 10])])
@@ -1364,7 +1368,9 @@ def gen_c16(ctx):
         if rng.random() < 0.4: c['symmpat'] = 1
         if rng.random() < 0.25:
             # exact magnitude ties between the diagonal and off-diagonal candidates (grounded unit-weight Laplacians)
-            c['lapl'] = rng.choice([1, 2]); c.pop('dom', None); c['vals'] = 'ones'; c['symmpat'] = 1 if rng.random() < 0.7 else 0
+            # (symmetric pattern: a grounded Laplacian of a connected graph keeps nonzero diagonal pivots, which is the premise of C16;
+            #  with an unsymmetric pattern weak dominance does not guarantee that and the statement does not apply)
+            c['lapl'] = rng.choice([1, 2]); c.pop('dom', None); c['vals'] = 'ones'; c['symmpat'] = 1
             if c['fam'] in ('rand', 'dense'): c['fam'] = rng.choice(['grid', 'tree', 'chain', 'star', 'band']); c.pop('dens', None)
             if c['fam'] == 'tree': c['shape'] = rng.choice([0, 1, 2, 3]); c['kary'] = 3; c['xanc'] = 0
             if c['fam'] == 'band': c['bl'] = 1; c['bu'] = 1
